@@ -1,0 +1,34 @@
+//go:build verif
+
+/*
+ * Cadence - The resource-oriented smart contract programming language
+ *
+ * Copyright Flow Foundation
+ *
+ * Licensed under the Apache License, Version 2.0 (the "License");
+ * you may not use this file except in compliance with the License.
+ * You may obtain a copy of the License at
+ *
+ *   http://www.apache.org/licenses/LICENSE-2.0
+ *
+ * Unless required by applicable law or agreed to in writing, software
+ * distributed under the License is distributed on an "AS IS" BASIS,
+ * WITHOUT WARRANTIES OR CONDITIONS OF ANY KIND, either express or implied.
+ * See the License for the specific language governing permissions and
+ * limitations under the License.
+ */
+
+package runtime
+
+// VerifSetPeepholeOptimizations switches the VM compiler's peephole pass of a VM environment
+// (created with NewScriptVMEnvironment / NewBaseVMEnvironment) on or off.
+// It reports whether the environment was a VM environment.
+// Only compiled with the build tag `verif` (verification harness); adds no behaviour otherwise.
+func VerifSetPeepholeOptimizations(env Environment, enabled bool) bool {
+	vmEnv, ok := env.(*vmEnvironment)
+	if !ok {
+		return false
+	}
+	vmEnv.compilerConfig.PeepholeOptimizationsEnabled = enabled
+	return true
+}
